@@ -136,6 +136,11 @@ impl Octree {
                 .map_init(
                     || (OctreeBuilder::new(settings, vars), rh.clone()),
                     |(builder, eval), cell| {
+                        #[cfg(fidget_verif)]
+                        fidget_core::verif::schedule_point(
+                            "octree_task",
+                            cell.depth as u64,
+                        );
                         let mut hermite = LeafHermiteData::default();
                         // Patch our cell so that it builds at index 0
                         let local_cell = CellIndex {
@@ -525,8 +530,18 @@ impl<'a, F: Function + RenderHints> OctreeBuilder<'a, F> {
         hermite: &mut LeafHermiteData,
     ) -> bool {
         if self.cancel.is_cancelled() {
+            #[cfg(fidget_verif)]
+            fidget_core::verif::emit(
+                "poll",
+                &[("depth", cell.depth as i64), ("cancelled", 1)],
+            );
             return false;
         }
+        #[cfg(fidget_verif)]
+        fidget_core::verif::emit(
+            "poll",
+            &[("depth", cell.depth as i64), ("cancelled", 0)],
+        );
         let (i, r) = match self.eval_interval.eval_raw(
             eval.i_tape(&mut self.tape_storage),
             cell.bounds[crate::types::X],
